@@ -15,7 +15,6 @@ C  direct oracle (harness): the property evaluated on the real result with its o
 import glob
 import itertools
 import os
-import re
 
 import vlib
 
@@ -31,8 +30,8 @@ CLAIM = {
             "+ mutated _testdata); token codes regenerated from token/token.go.",
     "note": "The scanner is an input (its tiling invariant is checked on every token list fed; the scanner itself "
             "is C15). format.Source is a parameter of the SourceEx theorem. 'Function declaration' in the theorems is "
-            "the code's isFuncDecl classification; the direct oracle uses its own reading and reports where they differ "
-            "(known finding: a comment between 'func' and '(' makes a function literal count as a declaration). "
+            "the code's isFuncDecl classification; the direct oracle uses its own reading (comments transparent) and reports "
+            "where they differ. "
             "Trusted: Coq kernel, extraction, harness, translator. The Go code is modelled, not verified.",
 }
 
@@ -44,11 +43,11 @@ ITEMS = ["x\n", "func f(){}\n", "func(){}()\n", "var a=1\n", "func (t T) m(){}\n
 DECLS = ["var a = 1", "var (\n\tb = 2\n\tc = \"s;{\"\n)", "const k = 3", "type T struct {\n\tx int\n}",
          "type I interface {\n\tm()\n}", "var fn = func() {\n}", "var f2 = func(a int) int { return a }",
          "const (\n\tp = iota\n\tq\n)", "type F func(int) int", "var v T"]
-FUNCS = ["func f() {\n\techo 1\n}", "func (t *T) m(a int) (r int) {\n\treturn a\n}",
+FUNCS = ["func /*n*/ q() {\n}", "func // l\nu(a int) {\n}", "func f() {\n\techo 1\n}", "func (t *T) m(a int) (r int) {\n\treturn a\n}",
          "func g(fn func(int) int) (int, error) {\n\treturn 0, nil\n}", "func h[K any](x K) {}", "func (T) n() {}",
          "func e()", "func w() { if true { echo \"}\" } }", "func (t T) String() string { return \"{\" }",
          "func k() { go func() { echo 1 }() }", "func (t T) /*r*/ o() {\n}", "func z( /*p*/ ) {\n}"]
-STMTS = ["echo 1", "x := 1", "println \"a;b\"", "func() {\n\techo 2\n}()", "go func(a int) { echo a }(1)",
+STMTS = ["func /*c*/ () { echo 2 }()", "func // c\n(a int) {\n\techo a\n}(1)", "func /*c*/ /*d*/ (a func()) {}(nil)", "echo 1", "x := 1", "println \"a;b\"", "func() {\n\techo 2\n}()", "go func(a int) { echo a }(1)",
          "f := func(a int) int { return a }", "if x > 1 {\n\techo x\n}", "for i <- 1:10 {\n\techo i\n}",
          "defer func() {}()", "x = [1, 2, 3]", "m := {\"a\": 1}", "echo `raw ; { \n string`", "c := '}'",
          "func(a func()) {}(nil)", "goto \"a\"", "a.b c, d", "x++", "return", "switch x {\ncase 1:\n}",
@@ -56,10 +55,7 @@ STMTS = ["echo 1", "x := 1", "println \"a;b\"", "func() {\n\techo 2\n}()", "go f
 COMMENTS = ["// c", "/* b */", "/* m\n l */", "# h", "//", "/**/", "//go:build x", "/* ; { */"]
 EDIT = list("{}();\n\"'`/*# \tfxv.,=") + ["func", "var", "\r\n", "/*", "*/", "//", "}\n", "\n\n"]
 
-# a comment directly after the func keyword: the dimension on which the current tree fails
-# (see known_findings.d/C24.txt); explored by the deterministic FINDING_SET only
-RISKY = re.compile(rb"func[ \t\r\n]*(/\*|//|#)")
-
+# a comment directly after the func keyword (repaired in /repo: isFuncDecl drops leading COMMENT words): regression inputs
 FINDING_SET = [
     "echo 1\nfunc /*c*/ () { echo 2 }()\nfunc f() {}\n",
     "x := 1\nfunc /*c*/ (a int) {\n\techo a\n}(x)\nfunc g() {\n}\n",
@@ -169,7 +165,7 @@ def run(ctx):
             cases.append(b)
 
     for s in FINDING_SET:
-        add(s, "finding-set")
+        add(s, "comment-after-func-set")
     for s in FIXED_SET:
         add(s, "fixed-set")
     td = testdata()
@@ -181,14 +177,11 @@ def run(ctx):
         if n == 4:
             n_ex3 = len(cases)
         for t in itertools.product(PIECES, repeat=n):
-            s = "".join(t).encode()
-            if not RISKY.search(s):
-                add(s, "exhaustive")
+            add("".join(t).encode(), "exhaustive")
     for n in range(1, K + 1):
         for t in itertools.product(ITEMS, repeat=n):
             add("".join(t), "exhaustive-stmts")
     n_ex = len(cases)
-    excluded = 0
     for i in range(ctx.n(5000, 200000)):
         k = i % 4
         if k == 0:
@@ -199,9 +192,6 @@ def run(ctx):
             b = mutate(rng, rng.choice(td), 4)
         else:
             b = mutate(rng, "\n".join(rng.choice(FUNCS + STMTS + DECLS) for _ in range(1 + rng.below(5))) + "\n", 2)
-        if RISKY.search(b):
-            excluded += 1
-            continue
         add(b, ["script", "script-mutated", "testdata-mutated", "lines-mutated"][k])
 
     # the SourceEx clause costs up to five parse+print runs per input: evaluated on everything except the
@@ -267,13 +257,12 @@ def run(ctx):
     ctx.cover(evaluations=len(cases), distinct_nontrivial=nontriv,
               samples=[{"src": cases[i].decode("utf-8", "replace")[:300], "impl_hex": F[i][2][:200], "chunks": G[i][2][:200],
                         "source": F[i][1], "source_ex": F[i][4]} for i in pick],
-              rule="deterministic: %d finding-set + %d fixed-set + %d _testdata files + every concatenation of <=%d pieces of %d "
+              rule="deterministic: %d comment-after-func + %d fixed-set + %d _testdata files + every concatenation of <=%d pieces of %d "
                    "and of <=%d statement-level items of %d (%d inputs, all distinct); seeded: structured scripts (declarations, functions, methods, generics, function "
                    "literals, statements, comments, CRLF, BOM, no trailing newline), their byte-mutations (delete/insert/duplicate/"
-                   "truncate/brace insertion/random byte), mutated _testdata, mutated line lists; NOT generated in the seeded part: "
-                   "a comment directly after the func keyword (%d candidates dropped; that dimension is the deterministic "
-                   "finding-set); non-trivial = distinct source with at least one function chunk after the first non-declaration"
-                   % (len(FINDING_SET), len(FIXED_SET), len(td), K, len(PIECES), K, len(ITEMS), n_ex, excluded),
+                   "truncate/brace insertion/random byte), mutated _testdata, mutated line lists; comments directly after the func "
+                   "keyword are generated (function literals and declarations); non-trivial = distinct source with at least one function chunk after the first non-declaration"
+                   % (len(FINDING_SET), len(FIXED_SET), len(td), K, len(PIECES), K, len(ITEMS), n_ex),
               origin_histogram=orig_h,
               shape_histogram=dict(sorted(shapes.items(), key=lambda kv: -kv[1])[:40]),
               tiling_checked=len(cases) - len(notil), sourceex_clause_evaluated=sum(with_src))
